@@ -65,7 +65,8 @@ META = dict(
          "module custody is exact up to an explicit reserve-shortfall term. The same ledger, custody, distribution and posted-price theorems "
          "hold for the first-generation vault auctions without exception. Counterexample theorems (replayed on the real code): two limit bids "
          "at one premium (D7) break pay<=target and receive<=collateral; an insufficient app reserve is silently ignored and other users' funds "
-         "in the module account pay for the close.",
+         "in the module account pay for the close. Also found by the monitors: a limit fill clipped by exhausted collateral debits the whole "
+         "remaining target from the deposit (limit_fill_overcharge).",
     note="Partial: first-generation LEND auctions (dutch_lend.go) are covered by the price functions only; the lend-internal split of the "
          "returned target (pool vs reserve) is not modelled; ESM-triggered closes are out of scope (C14). The V2 ledger theorems carry the "
          "hypothesis 'at most one limit bid per premium' because the code is wrong without it (D7).",
